@@ -22,6 +22,9 @@ def run(ctx):
     races.R1(ctx)
     races.R2(ctx)
     g_sync.run_all(ctx, ["Y1", "Y1c", "Y2", "Y3", "Y4", "O4", "O5"])
+    # an edge that exists too early hides a race just as an extra edge does
+    from . import round6
+    round6.Y5(ctx)
     # which ordering reaches the runtime decides which edges exist, hence which races are hidden
     from . import atomics
     atomics.O1(ctx)
